@@ -34,12 +34,48 @@ def leaves():
     ]
 
 
+def decorated_terms():
+    """Single probability terms over systematically decorated variables: value mark (none, -, +) x subscripts
+    (none, one, two of mixed polarity) on the child and/or the condition, plain and population-tagged."""
+    from y0.dsl import PP, A, B, C, P, Pi1, X
+
+    subs = [None, (-X,), (+X,), (-X, +B), (-X, -B), (+X, +B)]
+
+    def variants(v, subs_list):
+        out = []
+        for sub in subs_list:
+            for mark in (None, "-", "+"):
+                w = v if sub is None else v @ sub
+                if mark == "-":
+                    w = -w
+                elif mark == "+":
+                    w = +w
+                out.append(w)
+        return out
+
+    avs = variants(A, subs)
+    cvs = variants(C, [None, (-X,), (+X,)])
+    terms = []
+    for a in avs:
+        terms.append(P(a))
+        terms.append(PP[Pi1](a))
+        for c in cvs:
+            terms.append(P(a, c))
+            terms.append(P(a | c))
+            terms.append(P(c | a))
+    return terms
+
+
 def build(depth, stride, offset):
     """Expressions built through the public operators only."""
-    from y0.dsl import A, B, C, Sum, Zero
+    from y0.dsl import A, B, C, P, Sum, Zero
 
     L = leaves()
     out = [("leaf", e) for e in L]
+    for e in decorated_terms():
+        out.append(("decorated", e))
+        out.append(("decorated*", e * P(B)))
+        out.append(("decorated/", P(B) / e))
     l2 = []
     for a, b in itt.product(L, L):
         l2.append(("mul", a * b))
@@ -72,9 +108,12 @@ def build(depth, stride, offset):
                 i += 1
                 if i % stride == offset % stride:
                     out.append(("sum", Sum[r](e)))
+    import json
+
     seen = {}
     for k, e in out:
-        seen.setdefault(str(e) + "|" + repr(type(e)), (k, e))
+        # de-duplicate structurally (NOT by printed form: printing must be shown injective, not assumed)
+        seen.setdefault(json.dumps(to_json(e), sort_keys=True), (k, e))
     return list(seen.values())
 
 
@@ -175,7 +214,7 @@ def run() -> int:
         "normalising constructors reached through the parser (Distribution.safe, Product.safe, Sum.safe, __truediv__)",
     ]
     rep.bounds = {
-        "expressions": "built through public operators only: 30 leaves (joint/conditional, value marks, L2 and L3 subscripts, population tags incl. the target tag, Q-factors, One, Zero); all a*b, a/b, Sum[R](a); depth 3 = (depth-2) op leaf in both positions and sums (quick: every 25th, thorough: every 2nd); duplicates by printed form removed",
+        "expressions": "built through public operators only: 594 single terms over systematically decorated variables (value mark x 0-2 subscripts of mixed polarity, on children and conditions, plain / population-tagged) alone, times P(B), and under P(B)/.; 30 leaves (joint/conditional, value marks, L2 and L3 subscripts, population tags incl. the target tag, Q-factors, One, Zero); all a*b, a/b, Sum[R](a); depth 3 = (depth-2) op leaf in both positions and sums (quick: every 25th, thorough: every 2nd); duplicates by printed form removed",
         "distributions": "free positive joints per (population, intervention assignment), binary variables, Q-factors uninterpreted; cross-world terms cannot be evaluated in this world: for them only object equality after the round trip is checked (a shape-changing round trip of a cross-world term is reported as inconclusive)",
         "PYTHONHASHSEED": hashseed(),
     }
